@@ -513,6 +513,8 @@ pub fn run_c16(_args: &Args, tier: &str, seed: u64) -> Report {
     let none = || vec!["c16".to_string()];
     // ---- status codes: total over 65536
     let mut used_symbols: BTreeMap<String, u32> = BTreeMap::new();
+    let mut reused = IppHeader::new(IppVersion::v1_1(), 0, 1);
+    std::hint::black_box(reused.status_code());
     for code in 0..=0xffffu32 {
         rep.eval();
         let c = code as u16;
@@ -523,6 +525,13 @@ pub fn run_c16(_args: &Args, tier: &str, seed: u64) -> Report {
             if other != via_header {
                 rep.violation(format!("C16:status:depends-on-header:{code:#06x}"), format!("status {code:#06x} decodes to {via_header:?} in a 1.1 header but to {other:?} with version {ver:#06x} / request-id {id}"), none());
             }
+        }
+        // ... nor on what the same header object (or a clone of it) decoded before: one header re-used for every code
+        reused.operation_or_status = c;
+        let again = reused.status_code();
+        let cloned = reused.clone();
+        if again != via_header || cloned.status_code() != via_header || again.is_success() != via_header.is_success() {
+            rep.violation(format!("C16:status:depends-on-history:{code:#06x}"), format!("a header object decoded with other codes before, then set to {code:#06x}, decodes to {again:?} (clone: {:?}); a fresh header gives {via_header:?}", cloned.status_code()), none());
         }
         let direct = StatusCode::from_u16(c);
         let sym = format!("{via_header:?}");
@@ -658,6 +667,35 @@ pub fn run_c16(_args: &Args, tier: &str, seed: u64) -> Report {
             }
         }
     }
+    // a value tag the PARSER reads under a well-known attribute name stays that tag (no re-typing by name): every value tag x
+    // names of the registered enum / integer / keyword attributes x a few body lengths
+    for b in 0x10..=0x4au8 {
+        if b == 0x34 || b == 0x37 || b == 0x4a {
+            continue; // collection brackets and member names are structure, not values
+        }
+        for name in ["printer-state", "job-state", "finishings", "finishings-default", "orientation-requested", "print-quality", "operations-supported", "printer-state-reasons", "job-id", "copies", "attributes-charset", "x"] {
+            rep.eval();
+            for len in [0usize, 1, 4, 8, 9, 11] {
+                let mut msg = gen::HDR.to_vec();
+                msg.push(0x04);
+                msg.push(b);
+                msg.extend_from_slice(&(name.len() as u16).to_be_bytes());
+                msg.extend_from_slice(name.as_bytes());
+                msg.extend_from_slice(&(len as u16).to_be_bytes());
+                msg.extend(std::iter::repeat(0u8).take(len));
+                msg.push(0x03);
+                let (src, _) = Scripted::new(Arc::new(msg), Plan::full());
+                if let Ok(Ok(resp)) = catch(move || ipp::parser::IppParser::new(ipp::reader::IppReader::new(src)).parse()) {
+                    let got = resp.attributes().groups().last().and_then(|g| g.attributes().get(name)).map(|a| a.value().to_tag());
+                    rep.count("tags_parsed_under_well_known_names", 1);
+                    if got != Some(b) {
+                        rep.violation(format!("C16:value-tag:re-typed-by-name:{b:#04x}"), format!("a value received with tag {b:#04x} under the attribute name {name:?} is handed out with tag {got:?}"), none());
+                    }
+                    break;
+                }
+            }
+        }
+    }
     // a value decoded from tag byte b is emitted with tag byte b again, whatever its content (all 256 bytes, stand-alone decoder;
     // bodies: six fill patterns at eight lengths plus text samples with spaces, slashes, commas, non-ASCII, NUL and control characters)
     let mut bodies: Vec<Vec<u8>> = vec![];
@@ -778,8 +816,8 @@ const ORIENTATION_NOT_IN_PINNED_TREE: [i32; 0] = [];
 const BLOCKING: [&str; 10] = ["media-jam", "toner-empty", "spool-area-full", "cover-open", "door-open", "input-tray-missing", "output-tray-missing", "marker-supply-empty", "paused", "shutdown"];
 // registered RFC 8011 5.4.12 keywords that announce, rather than report, a problem (the registered keywords that do report one
 // without being on the property's list - media-empty, output-area-full, ... - are left out: the property does not classify them)
-const INFORMATIONAL: [&str; 13] = [
-    "none", "media-low", "toner-low", "media-low-warning", "marker-supply-low-report", "moving-to-paused", "connecting-to-device", "timed-out-report",
+const INFORMATIONAL: [&str; 14] = [
+    "", "none", "media-low", "toner-low", "media-low-warning", "marker-supply-low-report", "moving-to-paused", "connecting-to-device", "timed-out-report",
     "marker-supply-low", "output-area-almost-full", "marker-waste-almost-full", "opc-near-eol", "developer-low",
 ];
 
@@ -909,8 +947,14 @@ fn c17_case(rep: &mut Report, code: u16, state: &StateIn, reasons: &Option<Vec<S
     let m = c17_build(code, state, reasons, noise);
     let label = format!("status {code:#06x} state {state:?} reasons {reasons:?} noise {noise:#x}");
     rep.nontrivial(hash64(label.as_bytes()));
-    let resp = mirror::to_ipp(&m);
-    c17_judge(rep, &label, &resp, &want, "built in memory", replay);
+    // half of the in-memory responses are built through IppAttributes::add alone, some attributes first added with another
+    // value and replaced later (a server filling in a response step by step)
+    let via_add = hash64(label.as_bytes()) & 1 == 1 && mirror::addable(&m);
+    let resp = if via_add { mirror::to_ipp_via_add(&m, noise ^ code as u64) } else { mirror::to_ipp(&m) };
+    if via_add {
+        rep.count("responses_built_by_additions", 1);
+    }
+    c17_judge(rep, &label, &resp, &want, if via_add { "built in memory by additions" } else { "built in memory" }, replay);
     // through encode -> parse: the parser decides set vs single value
     let bytes = Arc::new(ref_bytes(&m));
     let (src, _) = Scripted::new(bytes.clone(), Plan::full());
